@@ -74,6 +74,17 @@ DESC = {
     "C17_r4": ("cat_trigger_unsolicited_read / _test call push_unsolicited_cmd directly (no lock bracket)", "any second thread triggering while cat_service runs"),
     "C19_r4": ("cmd_list_next_cmd skips disabled commands itself, the per-command check in print_cmd_list removed; the cursor still starts at index 0 unchecked", "a disabled FIRST command (or first group) - the request must come from a later command"),
     "C20_r4": ("start_print_cmd_list calls reset_state() (which also clears cr_flag) instead of only resetting cmd_type", "a CRLF-terminated request answered with the command list: bare LF newlines"),
+    # ---- round 5 (agents asked for violations that need an unusual configuration) ----
+    "C01_r5": ("parse_write_args: a failing variable write callback sets CAT_STATE_ERROR (LF already consumed) instead of ack_error", "a variable write callback rejecting a valid value, followed directly by another line: the next line is swallowed"),
+    "C02_r5": ("disabled-command check moved from get_cmd_state() to search_command(): a disabled implicit-write command still raises the implicit-write flag", "a disabled implicit-write command whose name is a prefix / duplicate of an enabled command: that command is served as WRITE"),
+    "C06_r5": ("get_atcmd_buf_size: (buf_size + 1) >> 1 for a shared buffer (same edit as C11_r4, found again for C06)", "odd shared buf_size, argument length = buf_size >> 1: accepted, NUL shared with the event half"),
+    "C09_r5": ("only_test refusal of the READ form folded into the 'no read handler' check behind the readable-variable early return", "a test-only command with a readable variable answers AT<cmd>? with its values"),
+    "C10_r5": ("self->index = 0 moved from start_processing_format_read_args to command_found", "READ of a command with >= 2 variables and a handler returning NEXT / DATA_NEXT: re-formatting covers the first variable only"),
+    "C11_r5": ("process_io_write: refusal test io->write(ch) != 1 became == 0", "an io->write that reports 'full' with a value other than 0 or 1: bytes of command answers are skipped"),
+    "C13_r5": ("print_response_test: the unsolicited flush continues at IDLE instead of AFTER_FLUSH_OK (saves one service call)", "a TEST event of a command without test handler: the event stays 'in progress' for the observers although the FSM is idle"),
+    "C14_r5": ("process_test_loop: CAT_RETURN_STATE_OK folded into the HOLD_EXIT_OK case (calls hold_exit)", "an unsolicited TEST handler returning plain OK while a command is held: the hold ends although nobody asked"),
+    "C19_r5": ("format_info_type: the <name:TYPE[access]> token built with one snprintf into char info[32], return value unchecked", "a variable name of >= 19 characters: token cut, fit check sees the shortened text"),
+    "C20_r5": ("prepare_parse_command additionally clears cr_flag", "the line's only CR sits between 'A' and 'T': answer with bare LF newlines"),
 }
 
 
